@@ -4,6 +4,14 @@ extern void (*const vh_bits_set_8)(const VhLine *);
 extern void (*const vh_bits_set_16)(const VhLine *);
 extern void (*const vh_bits_set_32)(const VhLine *);
 extern void (*const vh_bits_set_64)(const VhLine *);
+extern void (*const vh_bits_far_8)(const VhLine *);
+extern void (*const vh_bits_far_16)(const VhLine *);
+extern void (*const vh_bits_far_32)(const VhLine *);
+extern void (*const vh_bits_far_64)(const VhLine *);
+static void far8(const VhLine *l) { vh_bits_far_8(l); }
+static void far16(const VhLine *l) { vh_bits_far_16(l); }
+static void far32(const VhLine *l) { vh_bits_far_32(l); }
+static void far64(const VhLine *l) { vh_bits_far_64(l); }
 static void op8(const VhLine *l) { vh_bits_set_8(l); }
 static void op16(const VhLine *l) { vh_bits_set_16(l); }
 static void op32(const VhLine *l) { vh_bits_set_32(l); }
@@ -31,4 +39,5 @@ static void op_bits_signed(const VhLine *l) {
     }
 }
 const VhOp vh_bits_ops[] = {{"bits8.set", op8},   {"bits16.set", op16},         {"bits32.set", op32},
-                            {"bits64.set", op64}, {"bits.signed", op_bits_signed}, {NULL, NULL}};
+                            {"bits64.set", op64}, {"bits.signed", op_bits_signed}, {"bits8.far", far8},
+                            {"bits16.far", far16}, {"bits32.far", far32}, {"bits64.far", far64}, {NULL, NULL}};
